@@ -31,7 +31,7 @@ def allNew : List NewSite :=
   [.arrAdd, .arrAddAll, .arrDelete, .arrDeleteAll, .arrMap, .arrSelect, .arrReject, .arrSort, .arrFlatten0, .arrUnique2,
    .hashAdd0, .hashAdd1, .hashAddAll0, .hashDelete0, .hashDeleteAll1, .hashMap, .hashMapValues, .hashSelect, .hashReject,
    .hashSelectPairs, .hashRejectPairs, .hashMerge, .hashSort, .hashFlatten0, .hashFlatten1, .hashKeys, .hashValues,
-   .mutPutAll, .hashEachSlice, .hashAsArray]
+   .mutPutAll, .hashEachSlice, .hashAsArray, .hashMapEntries, .hashAddAll1]
 def allCtor : List CtorSite := [.wrapValues, .wrapHash, .buildArray, .buildHash, .newMutable]
 
 theorem allSame_complete (s : SameSite) : s ∈ allSame := by cases s <;> simp [allSame]
@@ -41,6 +41,9 @@ theorem allNew_complete (s : NewSite) : s ∈ allNew := by cases s <;> simp [all
 def sameOK (i : Idiom) : Bool := freshStrict i || i == .returnsReceiver || i == .resliceReceiver
 def winOK' (i : Idiom) : Bool := freshStrict i || i == .resliceReceiver
 
+/-- the builder callbacks behind `parse` / `coll` / `ser` values (BasicCollector) -/
+def builderKeys : List String := ["BasicCollector.AddArray/b0", "BasicCollector.AddHash/b0"]
+
 /-- Side condition on the table (decidable; discharged by `decide` on the regenerated table):
     * no row anywhere uses an idiom that writes through receiver storage or is not understood;
     * every site that computes a new sequence stores it in storage the method allocated itself (`freshCopy`,
@@ -48,13 +51,16 @@ def winOK' (i : Idiom) : Bool := freshStrict i || i == .resliceReceiver
     * a site may answer the receiver itself (or re-slice it) only where the model says the result IS the receiver's
       value (resp. a window of it);
     * the constructors hand out fresh storage (`wrapsArgument`: the caller's slice — the harness and the parser pass
-      slices nobody else holds; `freshToCallback`: BasicCollector, whose private appends are the `owned…` rows). -/
+      slices nobody else holds; `freshToCallback`: BuildArray/BuildHash, whose callbacks — every call site is a `/b`
+      row — must only append to the slice they are given, or hand it through BasicCollector's private stack and pop
+      it before returning it; the stack's own appends are the `owned…` rows). -/
 def idiomsSafeB (t : Table) : Bool :=
   t.all (fun r => rowSafe r.2) &&
   allNew.all (fun s => freshStrict (t.find s.key)) &&
   allSame.all (fun s => sameOK (t.find s.key)) &&
   allWin.all (fun s => winOK' (t.find s.key)) &&
-  allCtor.all (fun s => freshLike (t.find s.key))
+  allCtor.all (fun s => freshLike (t.find s.key)) &&
+  builderKeys.all (fun k => t.find k == .ownedHandOver || t.find k == .appendsToGiven)
 
 def IdiomsSafe (t : Table) : Prop := idiomsSafeB t = true
 
@@ -63,18 +69,18 @@ instance (t : Table) : Decidable (IdiomsSafe t) := by unfold IdiomsSafe; infer_i
 theorem safe_rows {t : Table} (h : IdiomsSafe t) : ∀ r ∈ t, rowSafe r.2 = true := by
   unfold IdiomsSafe idiomsSafeB at h
   simp only [Bool.and_eq_true, List.all_eq_true] at h
-  exact h.1.1.1.1
+  exact h.1.1.1.1.1
 
 theorem safe_new {t : Table} (h : IdiomsSafe t) (s : NewSite) : (t.find s.key).cls = .fresh := by
   unfold IdiomsSafe idiomsSafeB at h
   simp only [Bool.and_eq_true, List.all_eq_true] at h
-  exact freshStrict_cls (h.1.1.1.2 s (allNew_complete s))
+  exact freshStrict_cls (h.1.1.1.1.2 s (allNew_complete s))
 
 theorem safe_same {t : Table} (h : IdiomsSafe t) (s : SameSite) :
     (t.find s.key).cls = .fresh ∨ (t.find s.key).cls = .recv ∨ (t.find s.key).cls = .reslice := by
   unfold IdiomsSafe idiomsSafeB at h
   simp only [Bool.and_eq_true, List.all_eq_true] at h
-  have := h.1.1.2 s (allSame_complete s)
+  have := h.1.1.1.2 s (allSame_complete s)
   unfold sameOK at this
   simp only [Bool.or_eq_true, beq_iff_eq] at this
   rcases this with (h1 | h2) | h3
@@ -86,7 +92,7 @@ theorem safe_win {t : Table} (h : IdiomsSafe t) (s : WinSite) :
     (t.find s.key).cls = .fresh ∨ (t.find s.key).cls = .reslice := by
   unfold IdiomsSafe idiomsSafeB at h
   simp only [Bool.and_eq_true, List.all_eq_true] at h
-  have := h.1.2 s (allWin_complete s)
+  have := h.1.1.2 s (allWin_complete s)
   unfold winOK' at this
   simp only [Bool.or_eq_true, beq_iff_eq] at this
   rcases this with h1 | h3
